@@ -205,7 +205,8 @@ theorem C04_bound (rnd : Rat → Rat) (o : Oracle) (k : Nat) (globalDry : Bool) 
     have hdel : ∀ (k' : Nat) (g' : PGroup) (c : List Node) (cur : Int),
         C04.go (if st0.maxEff < g.asg.max then st0.maxEff else g.asg.max) cur (tryDelete o k' g' c).j = true :=
       fun k' g' c cur => go_of_noResize _ _ _ (fun e he => removal_noResize (tryDelete_entries o k' g' c e he))
-    rcases hact with ⟨_, hj | hj⟩ | ⟨_, hj⟩ | ⟨_, hj⟩
+    rcases hact with hj | ⟨_, hj | hj⟩ | ⟨_, hj⟩ | ⟨_, hj⟩
+    · rw [hj, go_append, hm, hdel]; rfl
     · rw [hj, go_append, go_append, hm, hdel, hdel]; rfl
     · rw [hj, go_append, go_append, go_append, hm, hdel, hdel]
       simp only [Bool.true_and]
